@@ -7,17 +7,18 @@ RULE = "descriptor clouds 1..4-D (multi-modal, anisotropic, degenerate) x weight
 def cases(rng, tier, focus):
     reps = 3 if tier == 'quick' else 30
     yield dict(d=2, kind='multimodal', grid='subset', loc='fpoints', cell=True, n=40, g=5, seed=11)      # exhibits the recorded periodic finding on every run
-    yield dict(d=2, kind='multimodal', grid='subset', loc='fspread', cell=False, n=40, g=5, seed=12)     # exhibits the recorded fspread finding
+    yield dict(d=2, kind='multimodal', grid='subset', loc='fspread', cell=False, n=40, g=5, seed=13)     # a small spread (seed odd: fspread=0.05): takes the branch that re-localises on the nearest-grid distance
     for rep in range(reps):
         for d in (1, 2, 3):
             for kind in ('multimodal', 'anisotropic'):
                 for grid in ('subset', 'points'):
                     for cell in (False, True):
-                        yield dict(d=d, kind=kind, grid=grid, loc='fpoints', cell=cell, n=int(rng.integers(30, 60)), g=int(rng.integers(3, 8)), seed=int(rng.integers(0, 10 ** 6)))
+                        yield dict(d=d, kind=kind, grid=grid, loc=('fspread' if (rep + d + (kind == 'anisotropic')) % 3 == 2 and not cell else 'fpoints'), cell=cell, n=int(rng.integers(30, 60)), g=int(rng.integers(3, 8)), seed=int(rng.integers(0, 10 ** 6)))
 
 # witness of the recorded effdim finding (known_findings.txt), evaluated on every run
 PINNED = [dict(d=3, kind='multimodal', grid='points', loc='fpoints', cell=True, n=37, g=5, seed=159705),
-          dict(d=1, kind='anisotropic', grid='points', loc='fpoints', cell=False, n=50, g=3, seed=988514)]      # second witness: non-terminating bisection (OverflowError)
+          dict(d=1, kind='anisotropic', grid='points', loc='fpoints', cell=False, n=50, g=3, seed=988514),
+          dict(d=3, kind='anisotropic', grid='points', loc='fspread', cell=False, n=48, g=6, seed=625225)]       # third witness: indefinite bandwidth at a grid point without assigned descriptors (small fspread)      # second witness: non-terminating bisection (OverflowError)
 
 def nontrivial(c): return (c['d'], c['kind'], c['grid'], c['loc'], c['cell'], c['seed'] % 3)
 
@@ -42,7 +43,7 @@ def build(c, rng, shift=None, dshift=None, perm=None):
 
 def fit(c, D, w, grid, cell):
     from skmatter.neighbors import SparseKDE
-    kw = dict(fpoints=0.3) if c['loc'] == 'fpoints' else dict(fspread=0.5)
+    kw = dict(fpoints=0.3) if c['loc'] == 'fpoints' else dict(fspread=(0.05 if c['seed'] % 2 else 0.5))      # small spreads take the branch that re-localises on the nearest-grid distance
     mp = {'cell_length': cell} if cell is not None else None
     return quiet(SparseKDE(D, w, metric_params=mp, **kw).fit, grid)
 
@@ -83,7 +84,11 @@ def check(c):
     H = np.asarray(est.bandwidth_)
     ok = np.all(np.isfinite(H)) and np.allclose(H, H.transpose(0, 2, 1), atol=1e-10 * max(1.0, np.abs(H).max()))
     if ok: ok = all(np.all(np.linalg.eigvalsh(h) > 0) for h in H)
-    expect(ok, f'post[C17]:every-bandwidth-matrix-is-finite-symmetric-and-positive-definite{tag}')
+    if not ok:
+        # which grid points have a bad bandwidth: only points without any assigned descriptor (recorded finding), or others too
+        bad = [j for j, h in enumerate(H) if not (np.all(np.isfinite(h)) and np.allclose(h, h.T, atol=1e-10 * max(1.0, np.abs(h).max())) and np.all(np.linalg.eigvalsh((h + h.T) / 2) > 0))]
+        empty_only = bool(bad) and all(est._sample_weights[j] == 0 for j in bad)
+        expect(False, f'post[C17]:every-bandwidth-matrix-is-finite-symmetric-and-positive-definite{tag}' + ('@only-at-grid-points-without-assigned-descriptors' if empty_only else ''), f"bad bandwidths at grid points {bad}")
     s = quiet(est.score_samples, Q)
     ref = mixture(est, D, wn, Q, cell)
     expect(np.allclose(s, ref, rtol=1e-8, atol=1e-8), f'post[C17]:score_samples-is-the-log-of-the-documented-mixture{tag}', f"max dev {np.max(np.abs(s - ref))}")
